@@ -1,6 +1,8 @@
 import Proofs.Lemmas.Isqrt
 import Zrnt.Util.Merkle
 import Zrnt.Util.MathSpec
+import Proofs.Lemmas.Merkle
+import Proofs.Lemmas.Pow2
 /-!
 # C19 — numeric, time and Merkle helpers are exact over their whole domain
 
@@ -9,7 +11,7 @@ tie R-fun) and about the hand model of `VerifyMerkleBranch` (tie H). All quantif
 full `UInt64` domain; no `bv_decide`, no `native_decide`.
 -/
 namespace Zrnt.Proofs.C19
-open Zrnt Zrnt.Gen.GoFuns Zrnt.Util
+open Zrnt Zrnt.Gen.GoFuns Zrnt.Util Zrnt.Util.Merkle Zrnt.Proofs
 
 /-- `IntegerSquareroot` returns the floor of the real square root for **every** 64-bit input
 (including 2^64−1), never panics, and its loop terminates: any fuel above `n` suffices. -/
@@ -140,5 +142,303 @@ theorem timeAtSlot_spec (spec : Spec) (slot g : UInt64) (h : spec.SECONDS_PER_SL
     rw [UInt64.toNat_add, UInt64.toNat_mul]
     have : slot.toNat * spec.SECONDS_PER_SLOT.toNat < 2 ^ 64 := by omega
     rw [Nat.mod_eq_of_lt this, Nat.mod_eq_of_lt hfit]
+
+
+
+theorem epochStartSlot_spec (spec : Spec) (e : UInt64) (h : spec.SLOTS_PER_EPOCH ≠ 0) :
+    match Spec.epochStartSlot spec.SLOTS_PER_EPOCH.toNat e.toNat with
+    | some v => ∃ s, EpochStartSlot spec e = .ok s ∧ s.toNat = v
+    | none => EpochStartSlot spec e = .err := by
+  have hs : 0 < spec.SLOTS_PER_EPOCH.toNat := by
+    rcases Nat.eq_zero_or_pos spec.SLOTS_PER_EPOCH.toNat with h0 | h0
+    · exact absurd (UInt64.toNat_inj.mp (by rw [h0]; rfl)) h
+    · exact h0
+  have hdef : EpochStartSlot spec e =
+      if e != (e * spec.SLOTS_PER_EPOCH) / spec.SLOTS_PER_EPOCH then Res.err
+      else Res.ok (e * spec.SLOTS_PER_EPOCH) := by
+    simp only [EpochStartSlot, SlotToEpoch, Res.udiv, h, if_false, bind, Res.bind]
+    rfl
+  rw [hdef]
+  unfold Spec.epochStartSlot
+  have hU : Spec.U64 = 2 ^ 64 := rfl
+  have hmul : (e * spec.SLOTS_PER_EPOCH).toNat = (e.toNat * spec.SLOTS_PER_EPOCH.toNat) % 2 ^ 64 :=
+    UInt64.toNat_mul _ _
+  by_cases hfit : e.toNat * spec.SLOTS_PER_EPOCH.toNat < Spec.U64
+  · simp only [hfit, ↓reduceIte]
+    rw [hU] at hfit
+    have heq : (e * spec.SLOTS_PER_EPOCH) / spec.SLOTS_PER_EPOCH = e := by
+      apply UInt64.toNat_inj.mp
+      rw [UInt64.toNat_div, hmul, Nat.mod_eq_of_lt hfit, Nat.mul_div_cancel _ hs]
+    simp only [heq, bne_self_eq_false, Bool.false_eq_true, ↓reduceIte]
+    exact ⟨_, rfl, by rw [hmul, Nat.mod_eq_of_lt hfit]⟩
+  · simp only [hfit, ↓reduceIte]
+    rw [hU] at hfit
+    have hne : (e * spec.SLOTS_PER_EPOCH) / spec.SLOTS_PER_EPOCH ≠ e := by
+      intro heq
+      have := congrArg UInt64.toNat heq
+      rw [UInt64.toNat_div, hmul] at this
+      have h1 : (e.toNat * spec.SLOTS_PER_EPOCH.toNat) % 2 ^ 64 < 2 ^ 64 := Nat.mod_lt _ (by decide)
+      have h2 : e.toNat * spec.SLOTS_PER_EPOCH.toNat ≤ (e.toNat * spec.SLOTS_PER_EPOCH.toNat) % 2 ^ 64 := by
+        have := Nat.div_mul_le_self ((e.toNat * spec.SLOTS_PER_EPOCH.toNat) % 2 ^ 64) spec.SLOTS_PER_EPOCH.toNat
+        rw [‹_ / _ = e.toNat›] at this
+        exact this
+      omega
+    have : (e != (e * spec.SLOTS_PER_EPOCH) / spec.SLOTS_PER_EPOCH) = true := by
+      simp only [bne_iff_ne, ne_eq]; exact fun h => hne h.symm
+    simp only [this, ↓reduceIte]
+
+
+
+theorem ne_zero_pos (x : UInt64) (h : x ≠ 0) : 0 < x.toNat := by
+  rcases Nat.eq_zero_or_pos x.toNat with h0 | h0
+  · exact absurd (UInt64.toNat_inj.mp (by rw [h0]; rfl)) h
+  · exact h0
+
+theorem churn_spec (spec : Spec) (n : UInt64) (h : spec.CHURN_LIMIT_QUOTIENT ≠ 0) :
+    ∃ c, GetChurnLimit spec n = .ok c ∧
+      c.toNat = Spec.churnLimit spec.MIN_PER_EPOCH_CHURN_LIMIT.toNat spec.CHURN_LIMIT_QUOTIENT.toNat n.toNat := by
+  refine ⟨MaxU64 spec.MIN_PER_EPOCH_CHURN_LIMIT (n / spec.CHURN_LIMIT_QUOTIENT), ?_, ?_⟩
+  · simp [GetChurnLimit, Res.udiv, h]
+  · rw [maxU64_spec, UInt64.toNat_div]; rfl
+
+theorem committeeCount_spec (spec : Spec) (n : UInt64)
+    (h1 : spec.SLOTS_PER_EPOCH ≠ 0) (h2 : spec.TARGET_COMMITTEE_SIZE ≠ 0) :
+    ∃ c, CommitteeCount spec n = .ok c ∧
+      c.toNat = Spec.committeeCount spec.SLOTS_PER_EPOCH.toNat spec.TARGET_COMMITTEE_SIZE.toNat
+        spec.MAX_COMMITTEES_PER_SLOT.toNat n.toNat := by
+  unfold CommitteeCount Spec.committeeCount
+  simp only [Res.udiv, h1, h2, if_false, bind, Res.bind]
+  have hqn : (n / spec.SLOTS_PER_EPOCH / spec.TARGET_COMMITTEE_SIZE).toNat =
+      n.toNat / spec.SLOTS_PER_EPOCH.toNat / spec.TARGET_COMMITTEE_SIZE.toNat := by
+    rw [UInt64.toNat_div, UInt64.toNat_div]
+  generalize n / spec.SLOTS_PER_EPOCH / spec.TARGET_COMMITTEE_SIZE = q at hqn ⊢
+  generalize n.toNat / spec.SLOTS_PER_EPOCH.toNat / spec.TARGET_COMMITTEE_SIZE.toNat = qn at hqn ⊢
+  have h1' : (1 : UInt64).toNat = 1 := rfl
+  by_cases hlt : spec.MAX_COMMITTEES_PER_SLOT < q
+  · have hlt' := UInt64.lt_iff_toNat_lt.mp hlt
+    simp only [hlt, decide_true, ↓reduceIte]
+    by_cases hz : spec.MAX_COMMITTEES_PER_SLOT = 0
+    · refine ⟨1, by simp [hz], ?_⟩
+      have : spec.MAX_COMMITTEES_PER_SLOT.toNat = 0 := by rw [hz]; rfl
+      omega
+    · have hp := ne_zero_pos _ hz
+      refine ⟨spec.MAX_COMMITTEES_PER_SLOT, by simp [hz], ?_⟩
+      omega
+  · have hge : q.toNat ≤ spec.MAX_COMMITTEES_PER_SLOT.toNat :=
+      Nat.le_of_not_lt (fun h' => hlt (UInt64.lt_iff_toNat_lt.mpr h'))
+    simp only [hlt, decide_false, Bool.false_eq_true, ↓reduceIte]
+    by_cases hz : q = 0
+    · refine ⟨1, by simp [hz], ?_⟩
+      have : q.toNat = 0 := by rw [hz]; rfl
+      omega
+    · have hp := ne_zero_pos _ hz
+      refine ⟨q, by simp [hz], ?_⟩
+      omega
+
+/-- p2p slot-window check: accepted iff `slot+span` does not overflow, `slot+span ≥ minSlot`, `slot ≤ maxSlot`. -/
+theorem checkSlotSpan_spec (slotAfter : Int → UInt64) (slot span : UInt64) :
+    CheckSlotSpan slotAfter slot span =
+      if slot.toNat + span.toNat < Spec.U64 ∧ (slotAfter (-500)).toNat ≤ slot.toNat + span.toNat ∧
+          slot.toNat ≤ (slotAfter 500).toNat then Res.ok () else Res.err := by
+  have hU : Spec.U64 = 2 ^ 64 := rfl
+  have hadd : (slot + span).toNat = (slot.toNat + span.toNat) % 2 ^ 64 := UInt64.toNat_add _ _
+  have hs := slot.toNat_lt
+  have hp := span.toNat_lt
+  have e1 : (slot + span < slot) ↔ ¬ (slot.toNat + span.toNat < Spec.U64) := by
+    rw [UInt64.lt_iff_toNat_lt, hadd, hU]
+    constructor
+    · intro h hlt; rw [Nat.mod_eq_of_lt hlt] at h; omega
+    · intro h
+      have hge : 2 ^ 64 ≤ slot.toNat + span.toNat := Nat.le_of_not_lt h
+      rw [Nat.mod_eq_sub_mod hge, Nat.mod_eq_of_lt (by omega)]; omega
+  have e2 : slot.toNat + span.toNat < Spec.U64 →
+      ((slot + span < slotAfter (-500)) ↔ ¬ ((slotAfter (-500)).toNat ≤ slot.toNat + span.toNat)) := by
+    intro hfit; rw [hU] at hfit
+    rw [UInt64.lt_iff_toNat_lt, hadd, Nat.mod_eq_of_lt hfit]; omega
+  have e3 : (slot > slotAfter 500) ↔ ¬ (slot.toNat ≤ (slotAfter 500).toNat) := by
+    show slotAfter 500 < slot ↔ _
+    rw [UInt64.lt_iff_toNat_lt]; omega
+  unfold CheckSlotSpan
+  by_cases c1 : slot.toNat + span.toNat < Spec.U64
+  · have n1 : ¬ (slot + span < slot) := fun h => (e1.mp h) c1
+    by_cases c2 : (slotAfter (-500)).toNat ≤ slot.toNat + span.toNat
+    · have n2 : ¬ (slot + span < slotAfter (-500)) := fun h => ((e2 c1).mp h) c2
+      by_cases c3 : slot.toNat ≤ (slotAfter 500).toNat
+      · have n3 : ¬ (slot > slotAfter 500) := fun h => (e3.mp h) c3
+        simp only [n1, n2, n3, decide_false, Bool.false_eq_true, ↓reduceIte]
+        rw [if_pos ⟨c1, c2, c3⟩]; rfl
+      · have p3 : slot > slotAfter 500 := e3.mpr c3
+        simp only [n1, n2, p3, decide_false, decide_true, Bool.false_eq_true, ↓reduceIte]
+        rw [if_neg (fun h => c3 h.2.2)]
+    · have p2 : slot + span < slotAfter (-500) := (e2 c1).mpr c2
+      simp only [n1, p2, decide_false, decide_true, Bool.false_eq_true, ↓reduceIte]
+      rw [if_neg (fun h => c2 h.2.1)]
+  · have p1 : slot + span < slot := e1.mpr c1
+    simp only [p1, decide_true, ↓reduceIte]
+    rw [if_neg (fun h => c1 h.1)]
+
+theorem activationExitEpoch_spec (spec : Spec) (e : UInt64)
+    (h : Spec.activationExitEpoch spec.MAX_SEED_LOOKAHEAD.toNat e.toNat < 2 ^ 64) :
+    (ComputeActivationExitEpoch spec e).toNat = Spec.activationExitEpoch spec.MAX_SEED_LOOKAHEAD.toNat e.toNat := by
+  unfold ComputeActivationExitEpoch Spec.activationExitEpoch at *
+  rw [UInt64.toNat_add, UInt64.toNat_add]
+  have : (1 : UInt64).toNat = 1 := rfl
+  rw [this]; omega
+
+theorem slotPrevious_spec (s : UInt64) : (SlotPrevious s).toNat = s.toNat - 1 := by
+  unfold SlotPrevious
+  by_cases h : s = 0
+  · subst h; simp
+  · have hp := ne_zero_pos _ h
+    have : (s == 0) = false := by simpa using h
+    simp only [this, Bool.false_eq_true, ↓reduceIte]
+    rw [UInt64.toNat_sub]; have := s.toNat_lt; have h1 : (1 : UInt64).toNat = 1 := rfl; rw [h1]; omega
+
+theorem epochPrevious_spec (e : UInt64) : (EpochPrevious e).toNat = e.toNat - 1 := slotPrevious_spec e
+
+
+/-- `IsPowerOfTwo n` holds exactly for the 64 powers of two. -/
+theorem isPow2_iff (n : UInt64) : IsPowerOfTwo n = true ↔ ∃ k, k < 64 ∧ n.toNat = 2 ^ k := by
+  unfold IsPowerOfTwo
+  by_cases h0 : n = 0
+  · subst h0
+    constructor
+    · intro h; simp at h
+    · rintro ⟨k, _, hk⟩
+      have : (0 : UInt64).toNat = 0 := rfl
+      rw [this] at hk
+      have := Nat.two_pow_pos k
+      omega
+  · have hpos := ne_zero_pos n h0
+    have hgt : n > 0 := UInt64.lt_iff_toNat_lt.mpr (by simpa using hpos)
+    have hsub : (n - 1).toNat = n.toNat - 1 := by
+      rw [UInt64.toNat_sub]; have := n.toNat_lt; have h1 : (1 : UInt64).toNat = 1 := rfl; rw [h1]; omega
+    have hand : ((n &&& (n - 1)) == 0) = true ↔ n.toNat &&& (n.toNat - 1) = 0 := by
+      rw [beq_iff_eq, ← UInt64.toNat_inj, UInt64.toNat_and, hsub]; rfl
+    simp only [hgt, decide_true, Bool.true_and]
+    rw [hand, Pow2.and_pred_eq_zero_iff _ hpos]
+    constructor
+    · intro h
+      refine ⟨n.toNat.log2, ?_, h⟩
+      exact (Nat.log2_lt (by omega)).mpr n.toNat_lt
+    · rintro ⟨k, _, hk⟩
+      have : n.toNat.log2 = k := by rw [hk]; exact Nat.log2_two_pow
+      rw [this]; exact hk
+
+
+/-- `r` is the least power of two that is `≥ x` -/
+def IsLeastPow2 (r x : Nat) : Prop := (∃ k, r = 2 ^ k) ∧ x ≤ r ∧ ∀ j, x ≤ 2 ^ j → r ≤ 2 ^ j
+
+theorem nextPow2_spec (x : UInt64) :
+    (x.toNat = 0 → (NextPowerOfTwo x).toNat = 0) ∧
+    (1 ≤ x.toNat → x.toNat ≤ 2 ^ 63 → IsLeastPow2 (NextPowerOfTwo x).toNat x.toNat) ∧
+    (2 ^ 63 < x.toNat → (NextPowerOfTwo x).toNat = 0) := by
+  have hx := x.toNat_lt
+  have h1 : (1 : UInt64).toNat = 1 := rfl
+  rw [Pow2.nextPow2_toNat]
+  refine ⟨?_, ?_, ?_⟩
+  · intro h0
+    have : x = 0 := UInt64.toNat_inj.mp (by rw [h0]; rfl)
+    subst this
+    decide
+  · intro hge hle
+    have hsub : (x - 1).toNat = x.toNat - 1 := by rw [UInt64.toNat_sub, h1]; omega
+    rw [hsub]
+    by_cases hv : x.toNat - 1 = 0
+    · have hx1 : x.toNat = 1 := by omega
+      rw [hv, Pow2.smear_zero, hx1]
+      refine ⟨⟨0, by decide⟩, by decide, ?_⟩
+      intro j _; exact Nat.two_pow_pos j
+    · have hvpos : 0 < x.toNat - 1 := by omega
+      have hne : x.toNat - 1 ≠ 0 := hv
+      rw [Pow2.smear_pos _ hvpos (by omega)]
+      have hL := Nat.log2_self_le hne
+      have hU := @Nat.lt_log2_self (x.toNat - 1)
+      have hL63 : (x.toNat - 1).log2 < 63 := (Nat.log2_lt hne).mpr (by omega)
+      have hpos := Nat.two_pow_pos ((x.toNat - 1).log2 + 1)
+      have hfit : 2 ^ ((x.toNat - 1).log2 + 1) < 2 ^ 64 :=
+        Nat.pow_lt_pow_right (by decide) (by omega)
+      have heq : (2 ^ ((x.toNat - 1).log2 + 1) - 1 + 1) % 2 ^ 64 = 2 ^ ((x.toNat - 1).log2 + 1) := by
+        rw [Nat.sub_add_cancel hpos, Nat.mod_eq_of_lt hfit]
+      rw [heq]
+      refine ⟨⟨_, rfl⟩, by omega, ?_⟩
+      intro j hj
+      have : 2 ^ (x.toNat - 1).log2 < 2 ^ j := by omega
+      have hlt : (x.toNat - 1).log2 < j := (Nat.pow_lt_pow_iff_right (by decide)).mp this
+      exact Nat.pow_le_pow_right (by decide) hlt
+  · intro hgt
+    have hsub : (x - 1).toNat = x.toNat - 1 := by rw [UInt64.toNat_sub, h1]; omega
+    rw [hsub]
+    have hne : x.toNat - 1 ≠ 0 := by omega
+    rw [Pow2.smear_pos _ (by omega) (by omega)]
+    have hlog : (x.toNat - 1).log2 = 63 := by
+      have h1 : (x.toNat - 1).log2 < 64 := (Nat.log2_lt hne).mpr (by omega)
+      have h2 : ¬ (x.toNat - 1).log2 < 63 := by
+        intro h; have := (Nat.log2_lt hne).mp h; omega
+      omega
+    rw [hlog]; decide
+
+section merkle
+variable {α : Type} [DecidableEq α]
+/-- `VerifyMerkleBranch` accepts exactly the branches that hash to `root` at `index`/`depth`
+(for depth within the branch: the documented domain). -/
+theorem merkle_eq_spec (H : α → α → α) (leaf : α) (branch : List α) (depth index : Nat) (root : α)
+    (h : depth ≤ branch.length) :
+    verifyMerkleBranch H leaf branch depth index root =
+      .ok (decide (specRoot H leaf index (branch.take depth) = root)) := by
+  unfold verifyMerkleBranch
+  rw [Merkle.fold_eq_spec H branch index depth 0 leaf (by omega)]
+  simp
+
+/-- no panic iff `depth ≤ len(branch)` -/
+theorem merkle_domain (H : α → α → α) (leaf : α) (branch : List α) (depth index : Nat) (root : α) :
+    verifyMerkleBranch H leaf branch depth index root = .panic ↔ branch.length < depth := by
+  constructor
+  · intro hp
+    rcases Nat.lt_or_ge branch.length depth with h | h
+    · exact h
+    · rw [merkle_eq_spec H leaf branch depth index root h] at hp; cases hp
+  · intro h
+    unfold verifyMerkleBranch
+    rw [Merkle.fold_panic H branch index depth 0 leaf (by omega) (by omega)]
+
+/-- soundness: two different leaves that lead to the same root along the same index and siblings
+yield an explicit collision of `H`. -/
+theorem merkle_sound (H : α → α → α) (branch : List α) :
+    ∀ (l1 l2 : α) (index : Nat), l1 ≠ l2 →
+      specRoot H l1 index branch = specRoot H l2 index branch →
+      ∃ a b c d, (a, b) ≠ (c, d) ∧ H a b = H c d := by
+  induction branch with
+  | nil => intro l1 l2 _ hne h; exact absurd h hne
+  | cons sib rest ih =>
+    intro l1 l2 index hne h
+    simp only [specRoot] at h
+    by_cases hb : index % 2 = 1
+    · simp only [hb, if_true] at h
+      by_cases heq : H sib l1 = H sib l2
+      · exact ⟨sib, l1, sib, l2, by simp [hne], heq⟩
+      · exact ih _ _ _ heq h
+    · simp only [hb, if_false] at h
+      by_cases heq : H l1 sib = H l2 sib
+      · exact ⟨l1, sib, l2, sib, by simp [hne], heq⟩
+      · exact ih _ _ _ heq h
+
+
+/-- completeness: the (leaf, siblings) read off a perfect Merkle tree of depth `d` at `index` are
+accepted by `VerifyMerkleBranch` against that tree's root. -/
+theorem merkle_complete {α : Type} [DecidableEq α] (H : α → α → α) (t : Merkle.Tree α) (d index : Nat)
+    (v : α) (sibs : List α) (h : Merkle.Tree.proof H t d index = some (v, sibs)) :
+    Merkle.verifyMerkleBranch H v sibs d index (t.root H) = .ok true := by
+  have hl := Zrnt.Proofs.Merkle.proof_length H t d index v sibs h
+  rw [merkle_eq_spec H v sibs d index _ (by omega), ← hl, List.take_length,
+    Zrnt.Proofs.Merkle.proof_verifies H t d index v sibs h]
+  simp
+
+/-- non-vacuity: a depth-2 tree over `Nat` with a toy hash -/
+example : Merkle.verifyMerkleBranch (fun a b : Nat => 2 * a + 3 * b + 1) 7 [5, 52] 2 1
+    (Merkle.Tree.root (fun a b : Nat => 2 * a + 3 * b + 1)
+      (.node (.node (.leaf 5) (.leaf 7)) (.node (.leaf 9) (.leaf 11)))) = .ok true := by decide
+
+end merkle
 
 end Zrnt.Proofs.C19
